@@ -163,10 +163,10 @@ def family_options(m, tier, add_bench, open_mod, close_mod):
         if order == "fn_first":
             add_bench(m, pt, 8, "parse", form="bencher")
             add_bench(m, pt, 8, "skipped", form="bencher", options=[("sample_count", "1"), ("sample_size", "1")])
-        gp = open_mod(m, pt, 8, "parse", group={"options": [("sample_count", "3"), ("sample_size", "5"), ("items_count", "4u32")]})
+        gp = open_mod(m, pt, 8, "parse", group={"display": "parse group", "options": [("sample_count", "3"), ("sample_size", "5"), ("items_count", "4u32")]})
         add_bench(m, gp, 12, "generic_only", form="bencher", types=["TA", "TB"])
         close_mod(m, 8)
-        gq = open_mod(m, pt, 8, "skipped", group={"options": [("ignore", None), ("sample_count", "2"), ("sample_size", "2")]})
+        gq = open_mod(m, pt, 8, "skipped", group={"display": "skipped group", "options": [("ignore", None), ("sample_count", "2"), ("sample_size", "2")]})
         add_bench(m, gq, 12, "generic_only", form="bencher", consts=[1, 2])
         add_bench(m, gq, 12, "plain_inside", form="bencher")
         close_mod(m, 8)
